@@ -12,7 +12,7 @@ numpy backend with density_matrix=True on integer Hermitian and non-Hermitian rh
 off-diagonal entries have non-zero imaginary parts, and `.state()` is compared exactly, inside Coq,
 with the model, with the Spec of the theorems and with U rho U^dagger for U = Base/Mat.circ_mat.
 """
-STATIC = ["C01/PropsDM"]
+STATIC = ["C01/PropsDM", "C01/Examples"]
 import random
 
 import numpy as np
